@@ -29,7 +29,7 @@ ASSUMPTIONS = [
 def check(ctx):
     # body of KeyState::knows_key regenerated from ca/keys.rs; C04Src: = the model's KeyState.knows
     return ca_common.run(ctx, "KrillModel.Props.C04", "C04", ASSUMPTIONS,
-                         translate=[("pure_fns:C04", "PureFns.lean")], extra_modules=["KrillModel.Props.C04Src"])
+                         translate=[("pure_fns:C04", "PureFnsC04.lean")], extra_modules=["KrillModel.Props.C04Src"])
 
 
 def replay(ctx, data):
